@@ -12,6 +12,7 @@ import (
 	"hash"
 	"math/big"
 	"slices"
+	"strings"
 	"testing"
 
 	"go.dedis.ch/kyber/v4"
@@ -866,4 +867,149 @@ func TestC09_BDN(t *testing.T) {
 func TestC09_CoSi(t *testing.T) {
 	ev := evFor("C09")
 	rcheck(t, 1000, 90000, func(t *rapid.T) { c09CoSi(t, ev) })
+}
+
+// ------------------------------------------------------------------ BDN mask families (model-based)
+
+// c09MaskFamily: a family of masks over one key set - the first one and clones of clones - is driven by
+// a generated sequence of SetBit / SetMask / Merge / Clone / AggregatePublicKeys calls against a model
+// (one bit vector per mask).  After every step every mask reports the model's bytes and counts, and
+// the aggregate key of a mask is sum (c_i+1)*X_i over ITS enabled bits, whatever happened to its
+// relatives before ("Modifications to the new Mask will not affect the original").
+func c09MaskFamily(t *rapid.T, ev *evProp) {
+	c := genCombo(t)
+	sch := c.bdn()
+	n := rapid.IntRange(1, 12).Draw(t, "n")
+	ks := xofStream(genSeed(t, "keys"))
+	pubs := make([]kyber.Point, n)
+	for i := range pubs {
+		_, pubs[i] = sch.NewKeyPair(ks)
+	}
+	key := func(w string) string { return "C09/bdn/" + c.name + "/" + w }
+	coefs := bdnCoefs(t, c.key.G, pubs)
+	terms := make([]kyber.Point, n)
+	for i := range terms {
+		terms[i] = c.key.G.Point().Mul(scalarFromBig(c.key.G, new(big.Int).Mod(new(big.Int).Add(coefs[i], big1), c.key.Order)), pubs[i])
+	}
+	first, err := bdn.NewMask(c.key.G, pubs, nil)
+	if err != nil {
+		violationOrKnown(t, ev, key("mask-family"), "NewMask failed: %v", err)
+		return
+	}
+	masks := []*bdn.Mask{first}
+	model := [][]bool{make([]bool, n)}
+	var hist []string
+	ctx := func() string {
+		return fmt.Sprintf("bdn mask family %s n=%d history: %s", c.name, n, strings.Join(hist, "; "))
+	}
+	toBytes := func(bits []bool) []byte {
+		b := make([]byte, (n+7)/8)
+		for i, v := range bits {
+			if v {
+				b[i/8] |= 1 << uint(i%8)
+			}
+		}
+		return b
+	}
+	genBits := func(label string) []bool {
+		bits := make([]bool, n)
+		for i := range bits {
+			bits[i] = rapid.Bool().Draw(t, fmt.Sprintf("%s.%d", label, i))
+		}
+		return bits
+	}
+	pick := func(label string) int { return rapid.IntRange(0, len(masks)-1).Draw(t, label) }
+	checkAgg := func(i int) bool {
+		var got kyber.Point
+		var err error
+		if pn := safely(func() { got, err = sch.AggregatePublicKeys(masks[i]) }); pn != "" || err != nil {
+			violationOrKnown(t, ev, key("mask-family"), "AggregatePublicKeys(mask #%d) fails: %v %s\n%s", i, err, pn, ctx())
+			return false
+		}
+		want := nullPoint(c.key)
+		for k, v := range model[i] {
+			if v {
+				want = c.key.G.Point().Add(want, terms[k])
+			}
+		}
+		if !got.Equal(want) {
+			violationOrKnown(t, ev, key("mask-family"), "aggregate key of mask #%d (bits %v) is not sum (c_i+1)*X_i over its enabled bits\n%s", i, model[i], ctx())
+			return false
+		}
+		// the result belongs to the caller
+		got.Add(got, basePoint(c.key))
+		return true
+	}
+	aggregated, clonedAfterAgg := false, false
+	steps := rapid.IntRange(3, 14).Draw(t, "steps")
+	for s := 0; s < steps; s++ {
+		switch rapid.SampledFrom([]string{"aggregate", "aggregate", "clone", "clone", "setbit", "setbit", "setbit", "setmask", "merge"}).Draw(t, fmt.Sprintf("op%d", s)) {
+		case "aggregate":
+			i := pick("agg")
+			hist = append(hist, fmt.Sprintf("aggregate #%d", i))
+			if !checkAgg(i) {
+				return
+			}
+			aggregated = true
+		case "clone":
+			if len(masks) >= 5 {
+				continue
+			}
+			i := pick("cl")
+			masks = append(masks, masks[i].Clone())
+			model = append(model, append([]bool(nil), model[i]...))
+			hist = append(hist, fmt.Sprintf("#%d = clone #%d", len(masks)-1, i))
+			clonedAfterAgg = clonedAfterAgg || aggregated
+		case "setbit":
+			i, k, v := pick("sb"), rapid.IntRange(0, n-1).Draw(t, "sbk"), rapid.Bool().Draw(t, "sbv")
+			hist = append(hist, fmt.Sprintf("#%d.SetBit(%d,%v)", i, k, v))
+			if err := masks[i].SetBit(k, v); err != nil {
+				violationOrKnown(t, ev, key("mask-family"), "SetBit fails: %v\n%s", err, ctx())
+				return
+			}
+			model[i][k] = v
+		case "setmask":
+			i, bits := pick("sm"), genBits(fmt.Sprintf("smb%d", s))
+			hist = append(hist, fmt.Sprintf("#%d.SetMask(%v)", i, bits))
+			if err := masks[i].SetMask(toBytes(bits)); err != nil {
+				violationOrKnown(t, ev, key("mask-family"), "SetMask fails: %v\n%s", err, ctx())
+				return
+			}
+			model[i] = bits
+		case "merge":
+			i, bits := pick("mg"), genBits(fmt.Sprintf("mgb%d", s))
+			hist = append(hist, fmt.Sprintf("#%d.Merge(%v)", i, bits))
+			if err := masks[i].Merge(toBytes(bits)); err != nil {
+				violationOrKnown(t, ev, key("mask-family"), "Merge fails: %v\n%s", err, ctx())
+				return
+			}
+			for k, v := range bits {
+				model[i][k] = model[i][k] || v
+			}
+		}
+		for i, m := range masks {
+			cnt := 0
+			for _, v := range model[i] {
+				if v {
+					cnt++
+				}
+			}
+			if !bytes.Equal(m.Mask(), toBytes(model[i])) || m.CountEnabled() != cnt {
+				violationOrKnown(t, ev, key("mask-family"), "mask #%d reports bytes %x / %d enabled, the model says %x / %d\n%s", i, m.Mask(), m.CountEnabled(), toBytes(model[i]), cnt, ctx())
+				return
+			}
+		}
+	}
+	for i := range masks {
+		hist = append(hist, fmt.Sprintf("final aggregate #%d", i))
+		if !checkAgg(i) {
+			return
+		}
+	}
+	ev.Case(len(masks) > 1 && clonedAfterAgg, ctx(), "bdn-family:"+c.name, fmt.Sprintf("bdn-family-masks:%d", len(masks)))
+}
+
+func TestC09_BDNMaskFamily(t *testing.T) {
+	ev := evFor("C09")
+	rcheck(t, 160, 24000, func(t *rapid.T) { c09MaskFamily(t, ev) })
 }
